@@ -29,8 +29,12 @@ func (c *RawClient) doTCPOp(op *Op) bool {
 		cid := uint32(0xdeadbeef)
 		if op.A.N >= 0 && op.A.N < len(c.ConnIDs) {
 			cid = c.ConnIDs[op.A.N]
-		} else if src := w.Clients[op.A.Target]; src != nil && op.A.N >= 0 && op.A.N < len(src.ConnIDs) {
-			cid = src.ConnIDs[op.A.N] // another client's connection id
+		} else if src := w.Clients[op.A.Target]; src != nil && src != c && op.A.N >= 0 {
+			src.mu.Lock()
+			if op.A.N < len(src.ConnIDs) {
+				cid = src.ConnIDs[op.A.N] // another client's connection id
+			}
+			src.mu.Unlock()
 		}
 		dc := &dataConn{Idx: len(c.Data), CID: cid}
 		c.Data = append(c.Data, dc)
@@ -54,16 +58,17 @@ func (c *RawClient) doTCPOp(op *Op) bool {
 		}
 		w.Net.DialAsync("client-data", &net.TCPAddr{IP: c.Addr.IP, Port: 0}, &net.TCPAddr{IP: w.SrvAddr.IP, Port: w.SrvAddr.Port},
 			func(conn *TCPConn, err error) {
+				c.mu.Lock()
+				defer c.mu.Unlock()
 				if err != nil {
 					dc.Failed = true
 					return
 				}
-				conn.Scripted = true
 				dc.Conn = conn
 				dc.Up = true
 				w.Net.SetName(akey(conn.laddr.IP, conn.laddr.Port), fmt.Sprintf("%s-d%d", c.Spec.ID, dc.Idx))
-				conn.OnData = func(_ *TCPConn, b []byte) { c.onDataConn(dc, b) }
-				conn.OnEOF = func(_ *TCPConn, rst bool) { dc.Closed = true }
+				conn.SetScripted(func(_ *TCPConn, b []byte) { c.onDataConn(dc, b) },
+					func(_ *TCPConn, rst bool) { c.mu.Lock(); dc.Closed = true; c.mu.Unlock() })
 				if !w.K.Free {
 					w.Mon.RegisterIntent(akey(conn.laddr.IP, conn.laddr.Port), raw, &Intent{Client: c.Spec.ID, OpID: op.ID, Kind: "connbind", Cred: mode})
 				}
@@ -140,9 +145,11 @@ func (p *PeerActor) startTCP() {
 	p.ln = l
 	l.OnConn = func(c *TCPConn) {
 		pc := &peerConn{Conn: c, In: true}
+		p.mu.Lock()
 		p.Conns = append(p.Conns, pc)
-		c.OnData = func(_ *TCPConn, b []byte) { pc.Recv = append(pc.Recv, b...) }
-		c.OnEOF = func(_ *TCPConn, rst bool) { pc.Closed = true }
+		p.mu.Unlock()
+		c.SetScripted(func(_ *TCPConn, b []byte) { p.mu.Lock(); pc.Recv = append(pc.Recv, b...); p.mu.Unlock() },
+			func(_ *TCPConn, rst bool) { p.mu.Lock(); pc.Closed = true; p.mu.Unlock() })
 	}
 }
 
@@ -161,13 +168,16 @@ func (p *PeerActor) doTCPOp(op *Op) bool {
 			if err != nil {
 				return
 			}
-			c.Scripted = true
 			pc := &peerConn{Conn: c}
+			p.mu.Lock()
 			p.Conns = append(p.Conns, pc)
-			c.OnData = func(_ *TCPConn, b []byte) { pc.Recv = append(pc.Recv, b...) }
-			c.OnEOF = func(_ *TCPConn, rst bool) { pc.Closed = true }
+			p.mu.Unlock()
+			c.SetScripted(func(_ *TCPConn, b []byte) { p.mu.Lock(); pc.Recv = append(pc.Recv, b...); p.mu.Unlock() },
+				func(_ *TCPConn, rst bool) { p.mu.Lock(); pc.Closed = true; p.mu.Unlock() })
 		})
 	case "peer_data":
+		p.mu.Lock()
+		defer p.mu.Unlock()
 		if op.A.N >= 0 && op.A.N < len(p.Conns) {
 			pc := p.Conns[op.A.N]
 			if !pc.Closed {
@@ -177,6 +187,8 @@ func (p *PeerActor) doTCPOp(op *Op) bool {
 			}
 		}
 	case "peer_close":
+		p.mu.Lock()
+		defer p.mu.Unlock()
 		if op.A.N >= 0 && op.A.N < len(p.Conns) {
 			pc := p.Conns[op.A.N]
 			if !pc.Closed {
